@@ -235,7 +235,8 @@ def _find_post(c):
     # with the active transitions sorted by start, the result is the last one that starts at or before t
     sorted_ = z3.ForAll([k, j], z3.Implies(z3.And(z3.ULE(k, j), z3.ULT(j, p['free'])), start(k) <= start(j)))
     return [('empty-pool-gives-null', z3.Implies(p['free'] == 0, r == 0)),
-            ('last-transition-not-after-t', z3.Implies(z3.And(sorted_, r != 0),
+            # (with the active transitions sorted by start this is the LAST transition starting at or before t)
+            ('a-transition-not-after-t-whose-successor-is-later', z3.Implies(r != 0,
                 z3.Exists([k], z3.And(z3.ULT(k, p['free']), r == slot(c.old, c.this, k), start(k) <= t,
                                       z3.Or(k + 1 == p['free'], start(k + 1) > t)))))]
 
@@ -250,7 +251,7 @@ def _find_inv(L):
     start = lambda j: c.old.load(Ptr(None, slot(c.old, c.this, j) + c.mod.field(TR, 'startEpochSeconds')[0]), 4)
     return [('bounds', z3.ULE(i, p['free'])),
             ('match-is-the-previous-slot', z3.If(i == 0, match == 0, match == slot(c.old, c.this, i - 1))),
-            ('all-before-start-at-or-before-t', z3.ForAll([k], z3.Implies(z3.ULT(k, i), start(k) <= t)))]
+            ('previous-starts-at-or-before-t', z3.Implies(i != 0, start(i - 1) <= t))]
 
 
 contract(TS + '::findTransition(int) const', pure=True, props=['C01', 'C07', 'C09'], requires=_find_pre, ensures=_find_post,
